@@ -500,6 +500,11 @@ class Run:
             "violations": len(self.violations),
         }
         path = os.path.join(VERIF, "evidence", self.pid + ".json")
+        if os.path.realpath(REPO) != "/repo" or self.replay:
+            # a run against a scratch copy (seeded-change trial) or a single-case replay must not overwrite the
+            # evidence of the property: evidence/<id>.json always describes a full run against /repo itself
+            os.makedirs("/var/tmp/verif-evidence-scratch", exist_ok=True)
+            path = os.path.join("/var/tmp/verif-evidence-scratch", self.pid + ".json")
         tmp = path + ".tmp%d" % os.getpid()
         json.dump(ev, open(tmp, "w"), indent=1, default=str)
         os.replace(tmp, path)
